@@ -563,7 +563,7 @@ static pid_t spawn_child(const std::vector<std::string>& args, int* read_fd, con
         envs.push_back(*e);
     }
     const std::string lp = san_log_base(prop);
-    envs.push_back("ASAN_OPTIONS=exitcode=77:detect_leaks=0:abort_on_error=0:handle_segv=1:detect_stack_use_after_return=0:allocator_may_return_null=1:quarantine_size_mb=4:thread_local_quarantine_size_kb=64:log_path=" + lp + ".asan");
+    envs.push_back("ASAN_OPTIONS=exitcode=77:detect_leaks=0:abort_on_error=0:handle_segv=1:detect_stack_use_after_return=0:allocator_may_return_null=1:max_allocation_size_mb=1024:quarantine_size_mb=4:thread_local_quarantine_size_kb=64:log_path=" + lp + ".asan");
     envs.push_back("UBSAN_OPTIONS=halt_on_error=1:exitcode=77:print_stacktrace=1:log_path=" + lp + ".ubsan");
     envs.push_back("TSAN_OPTIONS=exitcode=0:halt_on_error=0:report_signal_unsafe=0:report_thread_leaks=0:log_path=" + lp + ".tsan:second_deadlock_stack=1");
     std::vector<char*> envp;
@@ -891,7 +891,11 @@ static int parent_main(const Scenario& sc, const Options& opt) {
         reported.insert(v.key);
         const bool is_crash = v.key.rfind("sanitizer.", 0) == 0 || v.key.rfind("crash.", 0) == 0 || v.key.rfind("hang.", 0) == 0;
         if (is_crash) {
-            if (!sc.crash_is_violation) {
+            // A death of the simulated system inside repository code that reproduced in a fresh process (sanitizer report,
+            // fatal signal) is a violation of whatever property was being exercised: no property here holds on an execution
+            // in which the node dies. Only a wall-clock hang is left to the properties that are about liveness.
+            const bool hang = v.key.rfind("hang.", 0) == 0;
+            if (!sc.crash_is_violation && hang) {
                 agg.notes.push_back("process death outside this property's scope: " + v.key + " (replay " + v.path + ")");
                 // reported, but not as a violation of this property (memory safety / crashes are C26/C33/C35/C36)
                 out_lines.push_back("OUT-OF-SCOPE-CRASH property=" + sc.id + " key=" + v.key + " replay=" + v.path);
